@@ -1357,7 +1357,9 @@ func (g *Gen) bigMergeCase() {
 			} else if len(drops) == 0 {
 				xs = nil // the input without the field: nothing deleted
 			} else {
-				xs = []int{0, 2, 4, 6, 8, 10, 11}
+				// two deletions here against ten in the big input: counted with the wrong input's
+				// deletions the big input's terms have 1028 live documents instead of 1020
+				xs = []int{0, 11}
 			}
 		}
 		d := "nil"
